@@ -407,7 +407,8 @@ inductive Op where
   | newstr (s : Nat) (w : String) | newmstr (s : Nat) (w : String)
   | newfun (s o t : Nat)
   | newffun (s o w : Nat)    -- object o makes a function pointer compiled into a program: w = 0 / 2 (: ... :) / function () {} in its
-                             -- own program, w = 1 / 3 the same inside a function it inherits from /c06/base (func_ref of THAT program)
+                             -- own program, w = 1 / 3 the same inside a function it inherits from /c06/base (func_ref of THAT program),
+                             -- w = 4 / 5 in its own program and using a global variable (flag FP_NOT_BINDABLE in hdr.type)
   | fill (d n t : Nat)
   | assign (d s : Nat) | free (s : Nat)
   | aset (s i t : Nat) | aget (d s i : Nat)
@@ -773,11 +774,11 @@ def compile (s : St) (op : Op) : Option (List Mi) :=
   | .newffun d o w =>
     match uobjCell s o with
     | some (_, _) =>
-      if d < nSlots && w < 4 then
+      if d < nSlots && w < 6 then
         -- make_functional_funp: owner counted, `current_prog->func_ref++` - the program whose code is running: the
         -- inherited one when the function that contains the literal is inherited; dealloc_funp releases exactly these
         some ([.alloc .fn 3 true "" 0, .dup (.root (rHandle o)), .put (.item fresh 1),
-               .dup (.root (rFunc (w % 2))), .put (.item fresh 2)] ++ intoSlot d)
+               .dup (.root (rFunc (if w == 1 || w == 3 then 1 else 0))), .put (.item fresh 2)] ++ intoSlot d)
       else none
     | none => none
   | .fill d n t =>
